@@ -93,6 +93,42 @@ class LifeDriver(Harness):
             f.restype = C.c_ulong
             rv = f(C.byref(fl))
             return dict(e=name, rv=rvname(rv) if fl.value else "NULL_LIST")
+        if name == "MSlotList":
+            present, buf = a
+            nslots = 2                      # the set-up: one initialised token and the slot with the uninitialised one
+            n0 = p11.ULONG(0)
+            r0 = p.lib.C_GetSlotList(1 if present else 0, None, C.byref(n0))
+            if buf == "null":
+                return dict(e=name, present=present, buf=buf, rv=rvname(r0), n=n0.value, nslots=nslots, order=True, w=0)
+            size = {"small": max(nslots - 1, 0), "exact": nslots, "large": nslots + 3}[buf]
+            FILL = 0xA5A5A5A5A5A5A5A5
+            arr = (p11.ULONG * (size + 4))(*([FILL] * (size + 4)))
+            n = p11.ULONG(size)
+            rv = p.lib.C_GetSlotList(1 if present else 0, arr, C.byref(n))
+            got = [arr[i] for i in range(size + 4)]
+            w = max([i + 1 for i, x in enumerate(got) if x != FILL] or [0])
+            order = False
+            if rv == 0 and w == nslots and len(set(got[:w])) == w:
+                inits = []
+                for sl in got[:w]:
+                    r2, ti = p.token_info(sl)
+                    inits.append(bool(r2 == 0 and ti["flags"] & K.CKF_TOKEN_INITIALIZED))
+                order = inits == sorted(inits, reverse=True) and inits[-1] is False
+            return dict(e=name, present=present, buf=buf, rv=rvname(rv), n=n.value, nslots=nslots, order=order, w=w)
+        if name == "MRandom":
+            fn, h, n = a
+            s = self.s if h == "open" else 0
+            FILLB = 0xA5
+            b = (C.c_ubyte * (n + 16))(*([FILLB] * (n + 16)))
+            rv = getattr(p.lib, fn)(s, b, n)
+            raw = bytes(b)
+            w = max([i + 1 for i, x in enumerate(raw) if x != FILLB] or [0]) if fn == "C_GenerateRandom" else 0
+            if fn == "C_GenerateRandom" and rv == 0 and w < n and raw[n:] == bytes([FILLB]) * 16:
+                w = n               # (a random byte may equal the filler at the very end)
+            if fn == "C_SeedRandom" and raw != bytes([FILLB]) * (n + 16):
+                w = -1
+            fresh = n < 16 or raw[:n].count(FILLB) < n // 2
+            return dict(e=name, fn=fn, h=h, n=n, rv=rvname(rv), w=w, fresh=fresh)
         fn, h = a
         f = getattr(self.raw, fn)
         f.restype = C.c_ulong
